@@ -66,6 +66,7 @@ Holds0(ev, i, p) ==
     [] p = "C14arrow" -> C14arrow_OK(ev)
     [] p = "C14bullet" -> C14bullet_OK(ev)
     [] p = "C14corner" -> C14corner_OK(ev)
+    [] p = "C14m" -> C14m_OK(ev)
     [] p = "C05s" -> C05s_OK(ev)
     [] p = "C05box" -> C05box_OK(ev)
     [] p = "C05multi" -> C05multi_OK(ev)
@@ -103,6 +104,7 @@ NonTrivial(ev0, i, p) ==
     [] p = "C04" -> C04_NT(ev)
     [] p = "C04q" -> HasQuoted(DrawCells(ev))
     [] p \in {"C13", "C14arrow", "C14bullet", "C14corner", "C18"} -> TRUE
+    [] p = "C14m" -> C14m_NT(ev)
     [] p = "C16legend" -> Len(ev.legend.entries) > 0
     [] p = "C16tags" -> Len(ev.tags) > 0
     [] p = "C05s" -> C05s_NT(ev)
